@@ -25,10 +25,16 @@ func lemmaObligations(s *Session, prop, tier string) ([]*Obligation, []interface
 		obls = append(obls, s.lemmasC17()...)
 	case "C08":
 		obls = append(obls, s.lemmasC08()...)
+		if tier == "thorough" {
+			obls = append(obls, s.thoroughBitPrecise("C08", floatFixed, []string{"accuracy-positive", "accuracy-nonpositive"})...)
+		}
 	case "C09":
 		o, b := s.lemmasC09(tier)
 		obls = append(obls, o...)
 		bounded = append(bounded, b...)
+		if tier == "thorough" {
+			obls = append(obls, s.thoroughBitPrecise("C09", fixedFloat, []string{"range", "mono", "accuracy"})...)
+		}
 	}
 	return obls, bounded, assume
 }
